@@ -1,9 +1,33 @@
 SPEC = dict(
     id="C10",
-    level_text="TODO",
+    level_text=(
+        "Lean 4: for ALL datasets (any number of files/rows, typed nullable cells) and ALL predicates of the grammar "
+        "(comparisons, AND/OR/NOT in Kleene logic, IN lists incl. NULL literals, LIKE, IS [NOT] NULL, boolean literals), "
+        "over an executable model of delete.go (affected-file search, per-file COUNT/FILTER, whole-file branch, rewrite, "
+        "both counters, request gates). The keep filters of the count query and of the rewrite are GENERATED from the SQL "
+        "templates of the current delete.go; C10_claim proves for every template combination: the FULL statement "
+        "(rows after = previous rows whose predicate is not TRUE, per file and overall; reported count = |before|-|after|; "
+        "dry-run count = reported count) when both templates are `(p) IS NOT TRUE`, otherwise the _partial statement "
+        "(carve-out: no row with a NULL predicate in an affected file) plus a kernel-evaluated refutation of the full one "
+        "(C10_delete_witness, C10_dryrun_witness). C10_current_local/_remote instantiate it at what the source says NOW (`NOT (%s)` => partial + "
+        "witness: rows whose predicate is NULL in an affected file are deleted and counted, the dry-run count differs). "
+        "Unconditional for the current source: C10_count_agreeing_templates (count = rows that disappeared), "
+        "C10_dry_inert, C10_rejected_inert. DuckDB's three-valued evaluation is a modelled library semantics, validated "
+        "(not proved) by diffing the model against the real DeleteHandler + DuckDB on every run; harness monitors check the "
+        "property clauses on the real results using DuckDB's own evaluation of the predicate."),
     technique="Lean 4 proof over an executable SQL three-valued-logic model of the delete handler; keep-filter generated from the SQL templates of delete.go; differential correspondence against the real DeleteHandler + DuckDB",
     factgen=True,
     harnesses=[dict(name="c10", tags="verif duckdb_arrow", timeout=dict(quick=900, thorough=3000))],
-    trusted_base=[],
-    assumptions=[],
+    trusted_base=[
+        "DuckDB evaluates WHERE / FILTER / COPY(SELECT … WHERE) row by row with SQL three-valued logic as modelled by Arc.C10.eval (validated by the correspondence on every run, not proved)",
+        "the Go-side renderer predicate-AST -> SQL text in go/harness/c10 (the model receives the AST, the handler the text)",
+        "go/factgen/cmd/c10: classification of the template text (`%s` / `NOT (%s)` / `(%s) IS NOT TRUE`) and the check that the verb is fed by whereClause",
+        "DOUBLE cells are restricted to multiples of 0.25 (exact in binary floating point); NaN/inf and non-ASCII collation are outside the validated space",
+    ],
+    assumptions=[
+        "single request at a time (no concurrent writers/compaction on the measurement during the delete)",
+        "every listed parquet file has the predicate's columns (a file lacking a column makes the per-file query fail and is reported in failed_files — not modelled)",
+        "LocalBackend rewrite path exercised; the S3/Azure path shares the template (C10_current_remote) but is not executed",
+        "validateWhereClause's keyword/function deny-lists are exercised only on accepted predicates",
+    ],
 )
